@@ -1,5 +1,5 @@
 (* C04 — the seek-index lookup and the full-sidecar window read through it (Model/SeekIndex.v). *)
-From RipV Require Import Base.Prelude Model.Compile Model.SeekIndex.
+From RipV Require Import Base.Prelude Model.Compile Proofs.CompileProofs Model.CacheCompile Proofs.CacheCompileProofs Model.SeekIndex.
 
 (* ------------------------------------------------------------------ the lookup *)
 Lemma best_entry_some : forall es t b e, best_entry es t b = Some e -> b = Some e \/ In e es.
@@ -308,3 +308,121 @@ Lemma seek_window_next_entry_exists :
 Proof.
   exists 4, 2%nat, sw_thread, 6. split; [reflexivity|]. vm_compute. discriminate.
 Qed.
+
+(* ------------------------------------------------------------------ the specified window is admissible for the compiler *)
+Lemma start_rev_split from : forall rl need,
+  (forall f, In f rl -> fseq f <= from) ->
+  start_seq_rev from rl need = 0
+  \/ exists p f rest, rl = p ++ f :: rest /\ fseq f = start_seq_rev from rl need
+       /\ (need <= length (filter is_msg (p ++ [f])))%nat.
+Proof.
+  induction rl as [|x r IH]; intros need Hle; [left; reflexivity|].
+  assert (Hx : fseq x <= from) by (apply Hle; left; reflexivity).
+  assert (Hr : forall f, In f r -> fseq f <= from) by (intros f Hf; apply Hle; right; exact Hf).
+  cbn [start_seq_rev]. replace (from <? fseq x) with false by lia.
+  destruct (is_msg x) eqn:M.
+  - destruct need as [|[|n]].
+    + right. exists [], x, r. cbn [app filter]. rewrite M. cbn [length]. repeat split; lia.
+    + right. exists [], x, r. cbn [app filter]. rewrite M. cbn [length]. repeat split; lia.
+    + destruct (IH (S n) Hr) as [H0|[p [f [rest [E [Hs Hn]]]]]]; [left; exact H0|].
+      right. exists (x :: p), f, rest. split; [cbn [app]; rewrite E; reflexivity|]. split; [exact Hs|].
+      cbn [app filter]. rewrite M. cbn [length]. lia.
+  - destruct (IH need Hr) as [H0|[p [f [rest [E [Hs Hn]]]]]]; [left; exact H0|].
+    right. exists (x :: p), f, rest. split; [cbn [app]; rewrite E; reflexivity|]. split; [exact Hs|].
+    cbn [app filter]. rewrite M. exact Hn.
+Qed.
+
+Lemma filter_filter_and {A} (p q : A -> bool) (l : list A) :
+  filter p (filter q l) = filter (fun x => p x && q x) l.
+Proof.
+  induction l as [|x r IH]; [reflexivity|]. cbn [filter].
+  destruct (q x) eqn:Q; cbn [filter]; rewrite ?andb_true_r, ?andb_false_r; destruct (p x); rewrite ?IH; reflexivity.
+Qed.
+
+Lemma filter_none {A} (p : A -> bool) (l : list A) : (forall x, In x l -> p x = false) -> filter p l = [].
+Proof.
+  induction l as [|x r IH]; intros H; [reflexivity|]. cbn [filter].
+  rewrite (H x (or_introl eq_refl)). apply IH. intros y Hy. apply H. right. exact Hy.
+Qed.
+
+Lemma filter_all {A} (p : A -> bool) (l : list A) : (forall x, In x l -> p x = true) -> filter p l = l.
+Proof.
+  induction l as [|x r IH]; intros H; [reflexivity|]. cbn [filter].
+  rewrite (H x (or_introl eq_refl)). f_equal. apply IH. intros y Hy. apply H. right. exact Hy.
+Qed.
+
+Lemma filter_msg_keep (x : log) : filter is_msg (filter mr_keep x) = filter is_msg x.
+Proof.
+  rewrite filter_filter_and. apply filter_ext. intros f. unfold mr_keep. destruct (is_msg f); reflexivity.
+Qed.
+
+Theorem window_spec_admissible : forall limit l from,
+  incr l -> admissible_input mr_keep limit l from (window_spec limit l from).
+Proof.
+  intros limit l from Hi. split; [auto|].
+  unfold window_spec. set (u := upto from l).
+  set (s := start_seq_rev from (rev u) limit).
+  assert (Hu : forall f, In f u -> fseq f <= from).
+  { intros f Hf. unfold u, upto in Hf. apply filter_In in Hf. destruct Hf as [_ Hf]. lia. }
+  assert (Hsel : filter (fun f => (s <=? fseq f) && (fseq f <=? from)) l = filter (fun f => s <=? fseq f) u).
+  { unfold u, upto. rewrite filter_filter_and. reflexivity. }
+  rewrite Hsel.
+  assert (Hiu : incr u) by (apply incr_filter; exact Hi).
+  exists u. 
+  destruct (start_rev_split from (rev u) limit) as [H0|[p [f [rest [E [Hs Hn]]]]]].
+  { intros f Hf. apply Hu. apply in_rev. exact Hf. }
+  - exists []. split; [right; reflexivity|]. split; [|left; reflexivity].
+    cbn [app]. f_equal. symmetry. apply filter_all. intros x _. fold s in H0. lia.
+  - fold s in Hs.
+    assert (Eu : u = rev rest ++ f :: rev p).
+    { rewrite <- (rev_involutive u), E, rev_app_distr. cbn [rev]. rewrite <- app_assoc. reflexivity. }
+    rewrite Eu in Hiu. destruct (incr_app_inv _ _ Hiu) as [_ [Hi2 Hlt]].
+    assert (Hp : forall y, In y (rev p) -> fseq f < fseq y).
+    { cbn [incr] in Hi2. destruct Hi2 as [F _]. rewrite Forall_forall in F. exact F. }
+    assert (Ekeep : filter (fun g => s <=? fseq g) u = f :: rev p).
+    { rewrite Eu, filter_app.
+      rewrite (filter_none _ (rev rest)).
+      - cbn [app]. apply filter_all. intros y [<-|Hy]; [lia|]. specialize (Hp y Hy). lia.
+      - intros y Hy. specialize (Hlt y f Hy (or_introl eq_refl)). lia. }
+    rewrite Ekeep.
+    exists (filter mr_keep (rev rest)). split; [right; reflexivity|]. split.
+    + rewrite Eu, filter_app. reflexivity.
+    + right. rewrite count_msgs_upto_all.
+      * rewrite filter_msg_keep.
+        replace (f :: rev p) with (rev (p ++ [f])) by (rewrite rev_app_distr; reflexivity).
+        rewrite filter_is_msg_rev. exact Hn.
+      * intros g Hg. apply filter_In in Hg. destruct Hg as [Hg _].
+        assert (In g u) by (rewrite Eu; apply in_or_app; right; exact Hg).
+        specialize (Hu g H). lia.
+Qed.
+
+(* the full-sidecar window with the lookup of the code meets the hypothesis the compile-input theorem makes about its window *)
+Lemma full_sidecar_window_spec : forall stride limit l a,
+  valid_log l = true -> WindowSpec limit l a (full_sidecar_window best_offset stride limit l a).
+Proof.
+  intros stride limit l a Hv evs from H. unfold full_sidecar_window in H.
+  destruct (cut_point l a) as [fr|] eqn:C; [|discriminate].
+  inversion H; subst evs from. clear H. split; [reflexivity|]. exists mr_keep.
+  rewrite (seek_window_correct stride limit l fr Hv).
+  apply window_spec_admissible. apply valid_incr. exact Hv.
+Qed.
+
+(* THE COMPILE INPUT THROUGH THE CACHES AS FOUND, with the full-sidecar window read over the seek index as the window: no
+   hypothesis about the window is left *)
+Theorem compile_input_transparent_seek_window (r : tail_count) (P : params) (texts : N -> N) (l : log) (a : N)
+        (ks : list nat) (mr full : cfile) (stride : N) :
+  tail_count_sound r = true -> valid_log l = true -> wf_refs l = true ->
+  MrFaithful l mr full -> HeadFaithful l full ->
+  compile_fast r P texts ks mr full (full_sidecar_window best_offset stride (p_limit P) l a) l a = compile P texts l a.
+Proof.
+  intros R V W Fm Fh.
+  exact (compile_input_transparent r P texts l a R (valid_incr l V) W ks mr full _ Fm Fh
+           (full_sidecar_window_spec stride (p_limit P) l a V)).
+Qed.
+
+(* ... and with the off-by-one lookup the loader hands the compiler an empty input where the replay has two messages *)
+Lemma full_sidecar_window_next_entry_refuted :
+  option_map (fun w => seqs (fst w)) (full_sidecar_window best_offset_next 4 2 sw_thread 6) = Some []
+  /\ option_map (fun w => seqs (fst w)) (full_sidecar_window best_offset 4 2 sw_thread 6) = Some [5; 6]
+  /\ cut_point sw_thread 6 = Some 6.
+Proof. vm_compute. repeat split; reflexivity. Qed.
